@@ -26,7 +26,7 @@ func init() {
 		Phases: func(tier string, seed int64) []Phase {
 			return []Phase{{Name: "fences", Race: true, Run: c12Run}}
 		},
-		MinObserved: []string{"fences_checked", "order/stop-before-run", "order/race-startup", "order/after-ready", "runs_with_handlers_parked_at_stop", "runs_with_onclose_slow", "runs_with_connect_storm", "runs_with_tls_sessions_torn_down", "tls_sessions_served_before_stop", "runs_with_handlers_held_more_than_a_second_after_stop"},
+		MinObserved: []string{"fences_checked", "order/stop-before-run", "order/race-startup", "order/after-ready", "runs_with_handlers_parked_at_stop", "runs_with_onclose_slow", "runs_with_connect_storm", "runs_with_tls_sessions_torn_down", "tls_sessions_served_before_stop", "runs_with_parked_handlers_whose_client_hung_up", "runs_with_an_unbind_handler_held_at_stop", "runs_with_handlers_held_more_than_a_second_after_stop"},
 	})
 }
 
@@ -59,7 +59,7 @@ func c12One(c *Ctx, r *Rand, idx int) {
 	order := pick(r, []string{"stop-before-run", "race-startup", "race-startup", "after-ready", "after-ready", "after-ready", "after-ready"})
 	state := "none"
 	if order == "after-ready" {
-		state = pick(r, []string{"storm", "parked", "slow-onclose", "teardown", "idle", "parked+slow-onclose", "storm+parked", "tls-teardown"})
+		state = pick(r, []string{"storm", "parked", "slow-onclose", "teardown", "idle", "parked+slow-onclose", "storm+parked", "tls-teardown", "parked-hangup", "unbind-held"})
 	}
 	second := pick(r, []string{"no", "concurrent", "later"})
 	var inflight, onclosing atomic.Int64
@@ -69,7 +69,7 @@ func c12One(c *Ctx, r *Rand, idx int) {
 	closedConn := map[int]int{}
 	release := make(chan struct{})
 	slowClose := state == "slow-onclose" || state == "parked+slow-onclose"
-	parked := state == "parked" || state == "parked+slow-onclose" || state == "storm+parked"
+	parked := state == "parked" || state == "parked+slow-onclose" || state == "storm+parked" || state == "parked-hangup" || state == "unbind-held"
 	closeDelay := time.Duration(20+r.Intn(100)) * time.Millisecond
 	cfg := SrvCfg{OnClose: func(id int) {
 		onclosing.Add(1)
@@ -107,6 +107,20 @@ func c12One(c *Ctx, r *Rand, idx int) {
 		lastEvent.Store(nextSeq())
 		inflight.Add(-1)
 	})
+	if state == "unbind-held" {
+		// an Unbind route whose handler is still running when Stop is called
+		srv.Mux.Unbind(func(w *gldap.ResponseWriter, req *gldap.Request) {
+			inflight.Add(1)
+			seenMu.Lock()
+			seenConn[req.ConnectionID()] = true
+			seenMu.Unlock()
+			parkedNow.Add(1)
+			<-release
+			parkedNow.Add(-1)
+			lastEvent.Store(nextSeq())
+			inflight.Add(-1)
+		})
+	}
 	srv.S.Router(srv.Mux)
 	addr := fmt.Sprintf("127.0.0.1:%d", freePort())
 	det := map[string]any{"order": order, "state": state, "second_stop": second, "index": idx}
@@ -179,6 +193,39 @@ func c12One(c *Ctx, r *Rand, idx int) {
 			for dl := time.Now().Add(5 * time.Second); parkedNow.Load() == 0 && time.Now().Before(dl); {
 				time.Sleep(100 * time.Microsecond)
 			}
+		case "parked-hangup":
+			// clients whose handler is parked hang up (FIN, or reset) before Stop: the handler is still the server's
+			for i := 0; i < 1+r.Intn(4); i++ {
+				if cn := dial(); cn != nil {
+					served(cn, "x")
+					served(cn, "park")
+				}
+			}
+			for dl := time.Now().Add(5 * time.Second); parkedNow.Load() == 0 && time.Now().Before(dl); {
+				time.Sleep(100 * time.Microsecond)
+			}
+			cmu.Lock()
+			for i, cn := range clients {
+				if i%3 == 2 {
+					hardReset(cn)
+				} else {
+					cn.Close()
+				}
+			}
+			cmu.Unlock()
+			time.Sleep(time.Duration(r.Intn(3000)) * time.Microsecond)
+			c.Count("runs_with_parked_handlers_whose_client_hung_up", 1)
+		case "unbind-held":
+			for i := 0; i < 1+r.Intn(3); i++ {
+				if cn := dial(); cn != nil {
+					served(cn, "x")
+					cn.Write(sber.Message(9, sber.UnbindRequest(), nil).Encode())
+				}
+			}
+			for dl := time.Now().Add(5 * time.Second); parkedNow.Load() == 0 && time.Now().Before(dl); {
+				time.Sleep(100 * time.Microsecond)
+			}
+			c.Count("runs_with_an_unbind_handler_held_at_stop", 1)
 		case "tls-teardown":
 			// ldaps sessions that end in every way just before (or while) Stop runs: with close_notify, with a bare
 			// FIN, with a reset (closing such a transport fails on the server side: nothing is left to send the
